@@ -5,7 +5,8 @@ DESCRIPTION = {
     "level": "exploration",
     "rule": ("A callee session and a caller session (both frameworks, every serializer) are joined through a scripted router that rewrites ERROR(INVOCATION) into ERROR(CALL). "
              "Hypothesis draws the exception kind {ApplicationError(uri,*a,**kw), class decorated with @wamp.error, class registered by define(cls,uri), undefined class, class "
-             "whose constructor is incompatible with the transported args/kwargs or raises}, positional/keyword payloads (bytes, nesting, unicode, |int|<=2^53), traceback_app "
+             "whose constructor is incompatible with the transported args/kwargs or raises, class hierarchies: define()d base + define()d subclass, define()d base + unregistered subclass "
+             "(an unregistered class: generic URI), decorated base + decorated subclass registered in either order}, positional/keyword payloads (bytes, nesting, unicode, |int|<=2^53), traceback_app "
              "on/off, whether the caller registry knows the class, and synchronous vs asynchronous (pending result failed later) endpoints.  Oracle: on the wire the ERROR carries "
              "the registered / carried / generic runtime-error URI, args == list(exc.args), kwargs == the exception's kwargs (+ 'traceback' iff enabled); the caller's pending call "
              "fails exactly once with an instance of the class registered for that URI built from those args/kwargs, else with ApplicationError carrying URI, args and kwargs; the "
